@@ -43,6 +43,9 @@ func CheckImmutable(
 	}
 
 	for file := range filesToCheck {
+		// Every file starts outside of any function, whichever position range the loader gave it
+		// (files are parsed concurrently: a later file may hold LOWER positions than the previous one)
+		ctx.currentFunctionEnd = token.NoPos
 
 		// First pass: check simple assignments and inc/dec operations
 		// We skip compound assignments (+=, -=, etc.) here to avoid duplicates
